@@ -87,7 +87,8 @@ func c15Oracle(e *gen.Expr, only string) (out []mismatch, runs int64, outcomes [
 func init() { checks["C15"] = c15 }
 
 func c15(r *report.Run) {
-	slices := []*slice{sliceControl(), sliceScalar(), sliceAccess(), sliceLoops(), sliceNamed(), sliceNestType(), sliceAliases()}
+	slices := []*slice{sliceControl(), sliceScalar(), sliceAccess(), sliceLoops(), sliceNamed(), sliceNestType(), sliceAliases(), func() *slice { s := sliceCalls(); s.maxN = map[string]int{"quick": 5, "thorough": 6}; return s }(),
+		func() *slice { s := sliceKinds(); s.maxN = map[string]int{"quick": 4, "thorough": 5}; return s }()}
 	runSlices(r, slices, func(sl *slice, e *gen.Expr, order int64) (int64, []string) {
 		ms, runs, outs := c15Oracle(e, "")
 		for _, m := range ms {
@@ -108,8 +109,15 @@ func c15(r *report.Run) {
 	})
 	// a few shapes outside the node budgets (literal arrays with signed literals, chains)
 	rawOrder := int64(1) << 42
-	for _, src := range []string{"I in [-(-1), 5]", "I in [- -1, 3]", "I not in [-(+(-1))]", "I in [+1, -(-(-1))]", "I in [1, -1]", "J in [-1, -(-2)]", `S in ["a", "a" + "b"]`,
-		"F + J / 2", "F * (I / 2) + J", "I64 % 3 == 1", "I8 % 2 == 1", "F32 + 1 + 1", "MI == 1 or MI == 0", `MS == "a"`} {
+	var rawSrcs []string
+	for _, v := range []string{"I8", "U8", "I64", "U", "F32", "F", "MI", "O.N", "P?.N"} {
+		for _, rg := range []string{"1..300", "0..256", "-200..200", "1..3", "200..300"} {
+			rawSrcs = append(rawSrcs, v+" in "+rg, v+" not in "+rg, "any(["+v+"], {# in "+rg+"})")
+		}
+		rawSrcs = append(rawSrcs, v+" in [1, 200, 300]", v+" == 1", "("+v+" == nil) == (nil == "+v+")", "(B ? nil : "+v+") == nil", "(B ? nil : "+v+") != nil")
+	}
+	for _, src := range append(rawSrcs, []string{"I in [-(-1), 5]", "I in [- -1, 3]", "I not in [-(+(-1))]", "I in [+1, -(-(-1))]", "I in [1, -1]", "J in [-1, -(-2)]", `S in ["a", "a" + "b"]`,
+		"F + J / 2", "F * (I / 2) + J", "I64 % 3 == 1", "I8 % 2 == 1", "F32 + 1 + 1", "MI == 1 or MI == 0", `MS == "a"`}...) {
 		rawOrder++
 		type res struct{ mode, norm string }
 		var oks []res
@@ -119,6 +127,11 @@ func c15(r *report.Run) {
 				mkEnv := func() *henv.Env {
 					e := henv.MakeFull(henv.Val{})
 					e.I, e.J = []int{1, 2, -1}[vi], []int{2, -2, 3}[vi]
+					e.I8, e.U8, e.I64, e.U, e.F32, e.F = []int8{50, -128, 1}[vi], []uint8{200, 255, 1}[vi], []int64{250, 1 << 40, 1}[vi], []uint{250, 0, 1}[vi], []float32{250, 0.5, 1}[vi], []float64{250, 0.5, 1}[vi]
+					e.X, e.MI, e.B = []interface{}{int8(50), 250.0, nil}[vi], []henv.MyInt{250, 0, 1}[vi], vi != 1
+					if vi == 2 {
+						e.P, e.O = nil, nil
+					}
 					return e
 				}
 				var got interface{}
